@@ -23,6 +23,12 @@ import numpy as np
 ERR = 0.125  # base error rate used everywhere (exact in binary)
 
 
+def _qn(q):
+    """row key of the read dictionary as text (the documented key is the read name; anything else must show up as a
+    mismatch with the model's rows, not as a failure of the harness)"""
+    return q if isinstance(q, str) else repr(q)
+
+
 def setup():
     global pysam, bamgen, samwalk, extract_read_variants, Locus, read_bed4, assemble, call_exact, FORMAT, baseclass
     import pysam
@@ -78,7 +84,7 @@ def extract(ds, fh, cfg, samples=None):
             read_dicts=True)
     except ValueError as e:
         return "err", str(e)
-    return "ok", {k: {q: [str(c) for c in v[0]] for q, v in rows.items()} for k, rows in d.items()}
+    return "ok", {k: {_qn(q): [str(c) for c in v[0]] for q, v in rows.items()} for k, rows in d.items()}
 
 
 def make_program(ds, cfg, sample_bams, phred=False):
@@ -308,8 +314,8 @@ def _events_for(tid, ds_like, bam_paths, hdr, alleles, cfg, locus, contig, start
             ev.append({"op": "keys", "tid": tid, "file": f, "keys": list(d.keys())})
             for key, rows in d.items():
                 ev.append({"op": "rows", "tid": tid, "file": f, "key": key,
-                           "rows": [[q, [str(c) for c in v[0]]] for q, v in rows.items()],
-                           "quals": [[q, [int(x) for x in v[1]]] for q, v in rows.items()]})
+                           "rows": [[_qn(q), [str(c) for c in v[0]]] for q, v in rows.items()],
+                           "quals": [[_qn(q), [int(x) for x in v[1]]] for q, v in rows.items()]})
     # implementation: reported counts for pools
     n_alleles = [len(a) for a in alleles]
     for pname, members in pools.items():
